@@ -45,7 +45,8 @@ def hive_reject_job(args):
             return out
         badg = st["g"]
         groups = opr["newgroups"]
-        df, offs = D.build_frame(pd, groups, D.chunks_from_steps(opr["steps"]), part)
+        cm, nch = D.chunk_map(opr, part)
+        df, offs = D.build_frame(pd, groups, cm, part, nch)
         # the offending cell: the text column of the first row of group badg becomes an un-encodable object
         col = df["s"].astype(object)
         idx = [i for i in range(len(df)) if int(df["x"].iloc[i]) // 100 == badg][0]
@@ -245,12 +246,17 @@ def run(tier, seed):
 def _run(ev, work, thorough):
     verd = Verdicts(PID, os.path.join(HOME, "replays"))
     # ---- 1. design level: single file ----
-    for restore, label in ((True, "ok"), (False, "mut")):
+    for restore, rtrunc, label in ((True, True, "ok"), (False, True, "mut"), (True, False, "mut2")):
         cfg = SF.model_cfg(os.path.join(work, "fail-%s.cfg" % label), vals=(1,), maxops=2, kv=False, app=True, fail=True,
                            meta=False, trunc_kv=False, trunc_app=False, restore=restore, keys=("a",), ncols=3,
+                           chunk_sizes=(1, 30), restore_truncates=rtrunc,
                            invariants=SF.CONTRACT_INV, properties=SF.CONTRACT_PROP)
-        res = T.run_tlc("SingleFile", cfg, work, coverage=restore, timeout=3000)
-        if restore:
+        res = T.run_tlc("SingleFile", cfg, work, coverage=restore and rtrunc, timeout=3000)
+        if restore and not rtrunc:
+            if res.violated != "Openable":
+                raise T.TLCError("model mutant (restore without truncate) must violate Openable, got %s" % res.violated)
+            ev.add_tlc("SingleFile, RestoreTruncates=FALSE (model mutant): Openable violated by a big failed append", res)
+        elif restore:
             if not res.ok:
                 print(res.out[-3000:])
                 raise T.TLCError("SingleFile with RestoreOnFailure violates %s" % res.violated)
